@@ -1,4 +1,5 @@
 import Apko.Model.Resolver
+import Apko.Model.Glue
 /-! line-protocol handlers for corr:resolver / multiarch (C02, C14, C08) -/
 namespace Apko.Driver.Resolver
 open Apko Apko.Resolver
@@ -79,7 +80,7 @@ def firstUnavailable (archs : List (Text × Universe)) (self : Text) (s : List P
     (archs.find? fun (a, other) =>
       a != self && !(other.all.any fun q => q.name = p.name && q.version = p.version)).map fun (a, _) => (p, a)
 
-def handle (args : List String) : Option String :=
+def handleCore (args : List String) : Option String :=
   match args with
   | ["p.pure"] =>
     -- C08: the model is a pure function of (universe, world); `C08.schedule_independent` and
@@ -157,5 +158,82 @@ def handle (args : List String) : Option String :=
             | none => some (impl ++ "\tpass\t-")
     | _ => some "bad-universe\tfail:bad-universe\tunlisted"
   | _ => none
+
+/-! ### ops `g.resolve` / `g.avail` / `g.corr`: the resolver behind the glue of `pkg/build`
+
+request: op, contents.packages as written, --package-append entries, the repository lines in the order
+written, self, then the family (`readArchs`; the indexes of every architecture in the order of the lines),
+then Go's answer:
+  `ok id,…|conflicts`   Context.BuildPackageList / MultiArch.BuildPackageLists (the latter without conflicts)
+  `lk n=v,…`            the per-architecture package list of LockImageConfiguration (pins stripped, sorted)
+  `err`                 this architecture failed
+  `err*`                the multi-architecture call failed as a whole (admissible iff SOME architecture fails)
+  `nondeterministic: …` repeated invocations in one process disagreed
+The model resolves `Glue.world` over `Glue.indexesOf`; the oracles judge Go's answer against the entries AS
+WRITTEN (C02: every written entry is satisfied …) and against the family (C14). -/
+
+def nameVer (p : Pkg) : Text := p.name ++ ['='] ++ p.version
+
+/-- a lock answer → packages: the model's own member of that name and version if it has one (the lock list
+does not say which repository), else the first such package of the universe -/
+def parseLock (u : Universe) (model : List Pkg) (go : String) : List Pkg :=
+  (strList (go.drop 3).toString).map fun nv =>
+    match model.find? (fun p => nameVer p = nv) with
+    | some p => p
+    | none => (u.all.find? (fun p => nameVer p = nv)).getD { (default : Pkg) with name := nv }
+
+def handleGlue (args : List String) : Option String :=
+  match args with
+  | op :: pkgsF :: extraF :: linesF :: self :: narch :: rest =>
+    if op != "g.resolve" && op != "g.avail" && op != "g.corr" then none else
+    match readArchs narch.toNat! rest with
+    | some (archs0, [go]) =>
+      let lines := strList linesF
+      let archs := archs0.map fun (a, u) => (a, Glue.indexesOf lines u)
+      match lookupT archs (str self) with
+      | none => some "bad-arch\tfail:bad-arch\tunlisted"
+      | some u =>
+        let written := strList pkgsF ++ strList extraF
+        let w := Glue.world (strList pkgsF) (strList extraF)
+        let r := resolve (cfgOf u) w (disqualifyDifference archs (str self))
+        let flags := match r with | .ok x => x.flags | _ => []
+        let modelSet := match r with | .ok x => x.install | _ => []
+        let anyErr := archs.any fun (a, ua) =>
+          match resolve (cfgOf ua) w (disqualifyDifference archs a) with | .ok _ => false | _ => true
+        let lock := go.startsWith "lk "
+        let impl :=
+          if go = "err*" then (if anyErr then "err*" else showRes r)
+          else if lock then
+            (match r with
+             | .ok x => if anyErr then "err*" else "lk " ++ ",".intercalate ((Glue.sortedSet (x.install.map nameVer)).map enc)
+             | _ => showRes r)
+          else if go.endsWith "|" then
+            match r with | .ok x => showRes (.ok { x with conflicts := [] }) | _ => showRes r
+          else showRes r
+        let goSet : Option (List Pkg) := if lock then some (parseLock u modelSet go) else parseGo u go
+        match goSet with
+        | none =>
+          if go.startsWith "err" then some (impl ++ "\tpass\t-")
+          else if go.startsWith "nondeterministic" then some (impl ++ "\tfail:nondeterministic\tunlisted")
+          else some (impl ++ "\tfail:bad-answer\tunlisted")
+        | some s =>
+          if op = "g.corr" then some (impl ++ "\tpass\t-")
+          else if op = "g.resolve" then
+            match firstInvalid u written s with
+            | some t => some (impl ++ "\tfail:" ++ describe t ++ "\t" ++ classOf flags)
+            | none => some (impl ++ "\tpass\t-")
+          else
+            match firstUnavailable archs (str self) s with
+            | some (p, a) => some (impl ++ "\tfail:unavailable:" ++ String.ofList p.name ++ "-" ++
+                String.ofList p.version ++ ":" ++ String.ofList a ++ "\t" ++
+                (if !p.installIf.isEmpty then "F14a" else "unlisted"))
+            | none => some (impl ++ "\tpass\t-")
+    | _ => some "bad-universe\tfail:bad-universe\tunlisted"
+  | _ => none
+
+def handle (args : List String) : Option String :=
+  match args with
+  | op :: _ => if op.startsWith "g." then handleGlue args else handleCore args
+  | [] => none
 
 end Apko.Driver.Resolver
